@@ -452,6 +452,21 @@ func runCase(r *h.Run, c caseT) {
 				time.Sleep(time.Duration(1+prng.Intn(30)) * time.Millisecond)
 				close(sg.release)
 			case "app-close":
+				// in half of the cases a job of the connection is still running when Close is called and
+				// while the operations after Close are tried: the closed indication must not depend on
+				// the job list being idle
+				var held chan struct{}
+				if prng.Intn(2) == 0 {
+					held = make(chan struct{})
+					started := make(chan struct{})
+					hj := held
+					go cn.Execute(func() { close(started); <-hj })
+					select {
+					case <-started:
+						r.Count("closes_with_a_job_of_the_connection_still_running", 1)
+					case <-time.After(2 * time.Second):
+					}
+				}
 				_ = cn.Close()
 				w.mu.Lock()
 				cr.appClosed = true
@@ -459,6 +474,9 @@ func runCase(r *h.Run, c caseT) {
 				cr.closeRet = outb.Tick()
 				w.mu.Unlock()
 				postClose(r, c, cn, addPost, prng)
+				if held != nil {
+					close(held)
+				}
 			case "app-close-error":
 				e := fmt.Errorf("harness cause %d", i)
 				w.mu.Lock()
